@@ -438,27 +438,33 @@ fn try_main() -> Result<i32> {
                     return Ok(1);
                 }
             } else {
-                // build ninja target arguments, if necessary
-                let targets: Option<Vec<Utf8PathBuf>> = if let Selector::All = builders {
-                    if let Selector::All = apps {
+                // build ninja target arguments, if necessary.
+                // whenever builders or apps were selected, only their outputs are targets: the
+                // build file may stem from a (cached) run with a wider selection.
+                let targets: Option<Vec<Utf8PathBuf>> =
+                    if let (Selector::All, Selector::All) = (&builders, &apps) {
                         None
                     } else {
-                        // TODO: filter by app
-                        None
+                        Some(
+                            builds
+                                .build_infos
+                                .iter()
+                                .filter_map(|build_info| {
+                                    (builders.selects(&build_info.builder)
+                                        && apps.selects(&build_info.binary))
+                                    .then_some(build_info.out.clone())
+                                })
+                                .collect(),
+                        )
+                    };
+
+                if let Some(targets) = &targets {
+                    if targets.is_empty() {
+                        // an empty target list would make ninja build *everything* in the file
+                        println!("laze: no configured build matches the selection, nothing to build");
+                        return Ok(0);
                     }
-                } else {
-                    Some(
-                        builds
-                            .build_infos
-                            .iter()
-                            .filter_map(|build_info| {
-                                (builders.selects(&build_info.builder)
-                                    && apps.selects(&build_info.binary))
-                                .then_some(build_info.out.clone())
-                            })
-                            .collect(),
-                    )
-                };
+                }
 
                 ninja_run(
                     ninja_build_file.as_path(),
